@@ -47,7 +47,17 @@ def _worker(args):
 def run(ctx):
     n = ctx.n(150, 3000)
     rng = random.Random(ctx.seed)
-    cases = [evocase.gen_case(rng, {"pkey_move": i % 5 < 2, "trashbin": True}) for i in range(n)]
+    cases = [evocase.gen_case(rng, {"pkey_move": i % 5 < 2, "trashbin": True, "late_faults": 0.4}) for i in range(n)]
+    # directed: the server starts declaring a type the restarted client already maps, and handlers
+    # of that life still fail while (and right after) the running client merges the new dataschema
+    rng2, directed = random.Random(ctx.seed ^ 0x17e), []
+    while len(directed) < ctx.n(24, 300):
+        c = evocase.gen_case(rng2, {"pkey_move": False, "trashbin": True, "late_faults": 1.0})
+        added = [e[1] for e in c["edits"] if e[0] == "add_type"]
+        if added and c.get("late_faults") and all("L" + t in c["cdmB"] for t in added):
+            c["p_fail"] = 0.5
+            directed.append(c)
+    cases = cases + directed
     with ProcessPoolExecutor(max_workers=14) as ex:
         res = list(ex.map(_worker, [(c, os.path.join(ctx.work, f"e{i}")) for i, c in enumerate(cases)], chunksize=2))
     errs = [(i, r[3]) for i, r in enumerate(res) if r[3]]
